@@ -56,7 +56,10 @@ let parse_helper c =
       let def = (match f with "n" -> None | "t" | "T" -> Some true | "f" | "F" -> Some false | _ -> failwith "case syntax: list form") in
       let k = count c in
       Some { pl_elems = rep k (fun () -> pool.(count c)); pl_definite = def }) in
-  ({ rs_list = rs; rs_format = fmt }, cm, d)
+  (* optional: V <vkeys field | ~> B <bootstrap field | ~> *)
+  let opt_hex () = (match next c with "~" -> None | h -> Some (bytes_of_hex h)) in
+  let (vk, bo) = if c.pos < Array.length c.a then begin expect c "V"; let v = opt_hex () in expect c "B"; let b = opt_hex () in (v, b) end else (None, None) in
+  (vk, bo, { rs_list = rs; rs_format = fmt }, cm, d)
 
 let sub_of_int = function
   | 0 -> (SubInputs, 0) | 1 -> (SubCollateral, 0) | 2 -> (SubMint, 1) | 3 -> (SubCerts, 2)
@@ -84,7 +87,11 @@ let parse_ops c : op list =
                    else DatumValue pool.(int_of_string (String.sub dt 1 (String.length dt - 1)))) in
         let r = parse_redeemer c pool (n_of_int tag) in
         { w_script = src; w_datum = dat; w_redeemer = r }) in
-      OpSetSub (k, ws, ncol)
+      let nstale = count c in
+      let stale = rep nstale (fun () -> lang_of_tok (next c)) in
+      let nnat = count c in
+      let nat = rep nnat (fun () -> bytes_of_hex (next c)) in
+      OpSetSub (k, { ss_witnesses = ws; ss_stale = stale; ss_native = nat }, ncol)
     | "extra" -> OpAddExtraDatum pool.(count c)
     | "calc" -> OpCalc (parse_cm c)
     | "sethash" -> OpSetHash (bytes_of_hex (next c))
@@ -120,6 +127,7 @@ let show_verdict = function
   | Fails c -> (match int_of_n c with
       | 1 -> "fails:C09-set-bytes-length"
       | 2 -> "fails:C09-empty-datums"
+      | 3 -> "fails:C09-stale-input-language"
       | _ -> "fails:-")
 
 let field (impl : string list) (name : string) : string option =
@@ -136,8 +144,8 @@ let () = run_driver (fun toks impl ->
   let c = { a = Array.of_list toks; pos = 1 } in            (* a.(0) is the generator label *)
   let label = List.hd toks in
   if label.[0] = 'h' then begin
-    let (r, cm, d) = parse_helper c in
-    let (h, ws) = helper_obs r cm d in
+    let (vk, bo, r, cm, d) = parse_helper c in
+    let (h, ws) = helper_obs vk bo r cm d in
     let m = Printf.sprintf "ok h=%s ws=%s" (hex_of_bytes h) (hex_of_bytes ws) in
     let v = (match impl with
       | [] -> "na"
